@@ -204,7 +204,10 @@ class Case:
             return 'Blocked'
         if p._state != bp.RUN:
             r = p.apply_async(abs, (1,), soft_timeout=soft, timeout=hard, lost_worker_timeout=lost, waitforslot=slot)
-            assert r is None
+            if r is not None:
+                self.new_cb()
+                self.jobs.append(r)
+                return 'Accepted'
             return 'Refused'
         d = self.new_cb()
         r = p.apply_async(
@@ -222,7 +225,11 @@ class Case:
     def ev_map(self, n, cs):
         p = self.pool
         if p._state != bp.RUN:
-            assert p.map_async(abs, list(range(n)), cs) is None
+            r = p.map_async(abs, list(range(n)), cs)
+            if r is not None:
+                self.new_cb()
+                self.jobs.append(r)
+                return 'Accepted'
             return 'Refused'
         d = self.new_cb()
         r = p.map_async(abs, list(range(n)), cs,
@@ -234,7 +241,11 @@ class Case:
         p = self.pool
         f = p.imap_unordered if unordered else p.imap
         if p._state != bp.RUN:
-            assert f(abs, list(range(n))) is None
+            r = f(abs, list(range(n)))
+            if r is not None:
+                self.new_cb()
+                self.jobs.append(r)
+                return 'Accepted'
             return 'Refused'
         self.new_cb()
         self.jobs.append(f(abs, list(range(n))))
@@ -272,6 +283,7 @@ class Case:
                     left.append(it)
             for it in left:
                 p._taskqueue.put(it)
+        return ['fed', count[0] - (1 if fail_at is not None and count[0] > fail_at else 0)]
 
     def ev_ack(self, j, i, pref):
         job = self.jobs[j]
